@@ -400,6 +400,51 @@ fn main() {
             let r = cal.is_holiday(&gf);
             report("case", "d1", "get_calendar_by_name(\"fed\").is_holiday(1970-03-27)  [Good Friday 1970]", &format!("{}", r), "false", !r);
         }
+        // finding D3: loading a named calendar whose name is unknown must be an error, not an abort
+        "d3" => {
+            use rateslib::calendars::NamedCal;
+            use rateslib::json::JSON;
+            let ok_doc = NamedCal::try_new("tgt,ldn|fed").unwrap().to_json().unwrap();
+            let bad_doc = ok_doc.replace("tgt,ldn|fed", "tgt,xyz|fed");
+            let r = catch(|| NamedCal::from_json(&bad_doc).is_err());
+            report("case", "d3", &format!("NamedCal::from_json({})  [valid document with the name altered]", bad_doc), &match r { None => "PANIC".to_string(), Some(e) => format!("is_err = {}", e) }, "Err", r == Some(true));
+        }
+        // finding D4: loading an FX market from inconsistent JSON must be an error, not an abort
+        "d4" => {
+            use rateslib::dual::Number;
+            use rateslib::fx::rates::{FXRate, FXRates};
+            use rateslib::json::JSON;
+            let fxr = FXRates::try_new(vec![FXRate::try_new("eur", "usd", Number::F64(1.08), None).unwrap(), FXRate::try_new("usd", "jpy", Number::F64(110.0), None).unwrap()], None).unwrap();
+            let doc = fxr.to_json().unwrap();
+            // (a) the quote list emptied, (b) the currency list emptied, (c) one quote duplicated
+            let v: serde_json::Value = serde_json::from_str(&doc).unwrap();
+            let mut docs: Vec<(String, String)> = Vec::new();
+            let mut a = v.clone(); a["fx_rates"] = serde_json::json!([]); docs.push(("fx_rates emptied".into(), a.to_string()));
+            let mut b = v.clone(); b["currencies"] = serde_json::json!([]); docs.push(("currencies emptied".into(), b.to_string()));
+            let mut c = v.clone(); let q0 = c["fx_rates"][0].clone(); c["fx_rates"].as_array_mut().unwrap().push(q0); docs.push(("first quote duplicated".into(), c.to_string()));
+            let mut all_ok = true;
+            let mut obs = Vec::new();
+            for (what, d) in &docs {
+                let r = catch(|| FXRates::from_json(d).is_err());
+                obs.push(format!("{}: {}", what, match r { None => "PANIC".to_string(), Some(e) => format!("is_err = {}", e) }));
+                all_ok &= r == Some(true);
+            }
+            report("case", "d4", &format!("FXRates::from_json on a valid document ({}) with: fx_rates emptied / currencies emptied / first quote duplicated", doc), &obs.join("; "), "Err for each", all_ok);
+        }
+        // finding D6: spline solving with a NaN datum must be an error or a value, not an abort
+        "d6" => {
+            use rateslib::splines::PPSpline;
+            let t = vec![0.0, 0.0, 0.0, 0.0, 2.0, 5.0, 5.0, 5.0, 5.0];
+            let tau = vec![0.0, 1.0, 2.0, 4.0, 5.0];
+            let mut obs = Vec::new();
+            let mut all_ok = true;
+            for (what, tau_, y_) in [("NaN site", vec![0.0, f64::NAN, 2.0, 4.0, 5.0], vec![1.0, 2.0, 3.0, 2.0, 1.0]), ("NaN datum", tau.clone(), vec![1.0, f64::NAN, 3.0, 2.0, 1.0])] {
+                let r = catch(|| { let mut s = PPSpline::<f64>::new(4, t.clone(), None); s.csolve(&tau_, &y_, 0, 0, false).is_ok() });
+                obs.push(format!("{}: {}", what, match r { None => "PANIC".to_string(), Some(e) => format!("returned (is_ok = {})", e) }));
+                all_ok &= r.is_some();
+            }
+            report("case", "d6", "PPSpline(k=4, t=[0,0,0,0,2,5,5,5,5]).csolve with a NaN site / a NaN datum", &obs.join("; "), "a Result (no abort)", all_ok);
+        }
         // replay of a calendar query: calq <name> <yyyy-mm-dd>
         "calq" => {
             let name = args.get(2).map(|s| s.as_str()).unwrap_or("");
